@@ -103,6 +103,49 @@ ranges pairwise disjunct in reader order and no live document without a value -/
 def stackOk (desc : Bool) (stats : List Stats) (runs : List Run) : Bool :=
   disjunct desc stats && runs.all fun r => r.all fun x => x.1.isSome
 
+/-- `columnar::Cardinality` of the sort column of one segment -/
+inductive Card
+  | full
+  | optional
+  | multivalued
+deriving DecidableEq, Repr
+
+/-- mirrors: src/indexer/merger.rs::segment_has_live_nulls — only an `Optional` column is
+inspected; without deletes it certainly has a row without value; otherwise the alive docs are
+scanned for `first(doc) == None` -/
+def hasLiveNulls (card : Card) (keys : List SKey) (alive : List Bool) : Bool :=
+  match card with
+  | .optional => if !hasDeletes alive then true else (liveDocs keys alive).any (·.isNone)
+  | _ => false
+
+/-- the sort column of one merge source: cardinality, `first()` of every doc (deleted ones
+included), alive bitset, column statistics `(min_value, max_value)` -/
+structure SegCol where
+  card : Card
+  keys : List SKey
+  alive : List Bool
+  stats : Stats
+
+def SegCol.liveKeys (c : SegCol) : List SKey := liveDocs c.keys c.alive
+
+/-- mirrors: src/indexer/merger.rs::is_disjunct_and_sorted_on_sort_property (numeric sort
+field): stack iff the value ranges are disjunct in reader order and no reader has a live doc
+without value -/
+def stackDecision (desc : Bool) (cs : List SegCol) : Bool :=
+  disjunct desc (cs.map (·.stats)) && !(cs.any fun c => hasLiveNulls c.card c.keys c.alive)
+
+/-- what the columnar format guarantees about a column of the given cardinality: `Full` = every
+row has a value; `Optional` = some row has none (otherwise the writer would have chosen `Full`);
+`Multivalued` guarantees nothing about rows without value -/
+def CardOk (c : SegCol) : Prop :=
+  match c.card with
+  | .full => ∀ k ∈ c.keys, k.isSome = true
+  | .optional => ∃ k ∈ c.keys, k = none
+  | .multivalued => True
+
+/-- column statistics cover every stored value (of deleted docs too) -/
+def StatsOk (c : SegCol) : Prop := ∀ k ∈ c.keys, ∀ v, k = some v → c.stats.1 ≤ v ∧ v ≤ c.stats.2
+
 /-- `sort_readers_by_min_sort_field`: stable sort of the readers by `min_value` -/
 def sortReaders {β} (desc : Bool) (rs : List (Stats × β)) : List (Stats × β) :=
   rs.mergeSort fun a b => if desc then b.1.1 ≤ a.1.1 else a.1.1 ≤ b.1.1
